@@ -370,3 +370,41 @@ Proof.
     unfold recovery_low_spec. apply row_apply_scale; auto. apply cauchy_low_row_W16; assumption.
 Qed.
 End Scale.
+
+(* ---------- the engine does not matter (C03 at the level of encoder objects) ---------- *)
+Section Engines.
+Variable junk1 junk2 : N -> N -> N -> N.
+Hypothesis Hjunk1 : forall a b c, junk1 a b c < 65536.
+Hypothesis Hjunk2 : forall a b c, junk2 a b c < 65536.
+Variables (c : codec) (e1 e2 : engine) (K R sb ep1 ep2 : N) (o : list bytes).
+Hypothesis Hval : validateb c K R sb = None.
+Hypothesis Lo : N.of_nat (length o) = K.
+Hypothesis Bo : Forall (byteshard sb) o.
+Variables (w1 w2 : encwork) (x01 x1 x02 x2 : encoder) (a1 a2 : bool).
+Hypothesis H01 : enc_make c e1 K R sb w1 = inl (x01, a1).
+Hypothesis H1 : enc_add_all x01 o = inl x1.
+Hypothesis H02 : enc_make c e2 K R sb w2 = inl (x02, a2).
+Hypothesis H2 : enc_add_all x02 o = inl x2.
+
+Theorem ops_encode_engines : forall j, j < R ->
+  nth (N.to_nat j) (encode_shards junk1 ep1 x1) [] = nth (N.to_nat j) (encode_shards junk2 ep2 x2) [].
+Proof.
+  intros j Hj.
+  assert (Hs : supportsb c K R = true /\ bad_size sb = false).
+  { unfold validateb in Hval. destruct (supportsb c K R); cbn in Hval; [|discriminate]. destruct (bad_size sb); [discriminate|auto]. }
+  destruct Hs as [Hs Hbs].
+  assert (Hev : N.even sb = true).
+  { unfold bad_size in Hbs. apply orb_false_iff in Hbs. destruct Hbs as [_ Ho]. rewrite <- N.negb_odd, Ho. reflexivity. }
+  set (s1 := nth (N.to_nat j) (encode_shards junk1 ep1 x1) []).
+  set (s2 := nth (N.to_nat j) (encode_shards junk2 ep2 x2) []).
+  assert (Q1 : byteshard sb s1) by (apply (enc_out_byteshard junk1 Hjunk1 c e1 K R sb ep1 o Hval Lo Bo w1 x01 x1 a1 H01 H1 j Hj)).
+  assert (Q2 : byteshard sb s2) by (apply (enc_out_byteshard junk2 Hjunk2 c e2 K R sb ep2 o Hval Lo Bo w2 x02 x2 a2 H02 H2 j Hj)).
+  destruct (byteshard_syms sb s1 Hev Q1) as (Ls1 & Ws1 & Rs1). destruct (byteshard_syms sb s2 Hev Q2) as (Ls2 & Ws2 & Rs2).
+  rewrite <- Rs1, <- Rs2. f_equal.
+  apply (nth_ext _ _ 0 0); [rewrite Ls1, Ls2; reflexivity|].
+  intros l Hl. rewrite Ls1 in Hl. unfold s1, s2.
+  rewrite (ops_encode_cauchy junk1 Hjunk1 c e1 K R sb ep1 o Hval Lo Bo w1 x01 x1 a1 H01 H1 j l Hj Hl).
+  rewrite (ops_encode_cauchy junk2 Hjunk2 c e2 K R sb ep2 o Hval Lo Bo w2 x02 x2 a2 H02 H2 j l Hj Hl).
+  reflexivity.
+Qed.
+End Engines.
